@@ -209,7 +209,11 @@ def tlc(module, cfg, workdir, env=None, workers=1, timeout=900, extra=None,
     meta = os.path.join(workdir, "tlc-%s-%d-%d" % (os.path.basename(cfg),
                                                  os.getpid(), int(time.time() * 1e6) % 10**9))
     os.makedirs(meta, exist_ok=True)
-    cmd = ["java", "-XX:+UseParallelGC", "-Xmx" + heap, "-cp", TLA_CP,
+    # TLC creates an (empty) tlc-<n> directory under java.io.tmpdir on every
+    # run; keep it inside the run's own metadir so that nothing accumulates
+    # in /tmp.
+    cmd = ["java", "-XX:+UseParallelGC", "-Xmx" + heap,
+           "-Djava.io.tmpdir=" + meta, "-cp", TLA_CP,
            "tlc2.TLC", "-workers", str(workers), "-metadir", meta,
            "-config", cfg, "-nowarning", "-noGenerateSpecTE"]
     if extra:
